@@ -40,7 +40,7 @@ program is also evaluated in Pack/PackModel.v (initialisers_emitted, as written 
 import json
 import os
 
-from .. import c09_attrs, c09_big, c09_pack, dl, engine_tie, gen_dl, lib, prog
+from .. import c09_attrs, c09_big, c09_dead, c09_pack, dl, engine_tie, gen_dl, lib, prog
 
 PROP = "C09"
 PROP_FILE = "Props/C09.v"
@@ -74,6 +74,8 @@ def case_from_json(c, cid):
         out["view"] = rels_from_json(c["view"])
     if c.get("wo_family"):
         out["wo_family"] = True
+    if c.get("opt_family"):
+        out["opt_family"] = True          # family `opt` (gen/c09_dead.py): relations without input are declared bare in every packaging
     if c.get("big_seeds"):
         out["big_seeds"] = list(c["big_seeds"])          # arrangements of the family `big` that exposed a defect (gen/c09_big.py corpus_jobs)
     return out
@@ -325,7 +327,7 @@ def compare_job(r, job, res, feature, pred=None):
         # model tie of Pack/PackModel.v ascent_run_code: when the initialisers are the WHOLE input of an ascent_run! program,
         # r["model"] = rows (run_plan (init_state (assign_inits inits))) = rows (ascent_run_code inits) by the proved
         # c09_init_is_input; rows are compared as multisets sizes + sets (the Engine model has no lattices)
-        whole = job["kind"] == "run_init" or (job["kind"] == "run_wo_init" and all(not ts for n, ts in c["inputs"][k].items() if n not in wo))
+        whole = job["kind"] in ("run_init", "d_run_init") or (job["kind"] == "run_wo_init" and all(not ts for n, ts in c["inputs"][k].items() if n not in wo))
         if whole and job["macro"] == "ascent_run" and not has_lat and r.get("model") and r["model"][k] is not None:
             mg = engine_tie.group_facts(r["model"][k], rels)
             isnap = prog.canon_snap(iv["snaps"][-1])
@@ -369,7 +371,7 @@ def replay_case(path):
 def tie(tier, seed, replay):
     if replay:
         return replay_case(replay)
-    cases = load_corpus() + gen_wo_cases(tier, seed) + gen_cases(tier, seed)
+    cases = load_corpus() + c09_dead.gen_cases(tier, seed, PROP) + gen_wo_cases(tier, seed) + gen_cases(tier, seed)
     results = []
     for i in range(0, len(cases), 96):
         results += engine_tie.run(PROP, cases[i:i + 96], tag="c09", spec="strat")
@@ -380,15 +382,32 @@ def tie(tier, seed, replay):
         mism += engine_tie.compare_case(r)
     rng = lib.rng_for(seed, PROP, "pack")
     jobs, owner, nwit = [], {}, 0
+    opt_cases, opt_jobs = [], []
     for r in results:
         if r["front_status"] != "ok" or r["spec"] is None:
             continue
         c = r["case"]
+        # family `opt` (gen/c09_dead.py): every relation without input in all scripts is declared bare (no initialiser, no feeding rule,
+        # field never touched); the programs of that family get all its packagings, any other program with such a relation the two
+        # ascent_run! forms
+        orng = lib.rng_for(seed, PROP, "optpack/" + c["id"])
+        if c.get("opt_family"):
+            opt_cases.append(c)
+            for j in c09_dead.packagings(orng, c["id"], view_prog(c), c["inputs"], tier, full=True):
+                jobs.append(j)
+                opt_jobs.append(j)
+                owner[j["id"]] = r
+            continue
         nwit += 1
         for j in c09_pack.packagings(rng, c["id"], view_prog(c), c["inputs"], tier, witness=(nwit <= (4 if tier == "quick" else 12)),
                                      wo_family=bool(c.get("wo_family"))):
             jobs.append(j)
             owner[j["id"]] = r
+        if any(not any(inp.get(n) for inp in c["inputs"]) for n, _, _ in c["prog"]["rels"]):
+            for j in c09_dead.packagings(orng, c["id"], view_prog(c), c["inputs"], tier, full=False):
+                jobs.append(j)
+                opt_jobs.append(j)
+                owner[j["id"]] = r
     # family `big` (gen/c09_big.py): the logical program inside 21-64 declarations (fillers, re-declarations, orders, includes), all four macros
     brng = lib.rng_for(seed, PROP, "big")
     elig = [r for r in results if r["front_status"] == "ok" and r["spec"] is not None and r["case"]["prog"]["rels"]]
@@ -419,7 +438,7 @@ def tie(tier, seed, replay):
     for feats, tag in (((), "c09p"), (("segment-codegen",), "c09ps")):
         impl = {}
         # (family `big` is built feature-less only: segment-codegen changes how rule code is emitted, not how declarations are resolved)
-        fjobs = [j for j in jobs if not (feats and j.get("family") == "big" and tier == "quick")]
+        fjobs = [j for j in jobs if not (feats and j.get("family") in ("big", "opt") and tier == "quick")]
         for i in range(0, len(fjobs), 480):
             impl.update(c09_pack.build_and_run(tag, fjobs[i:i + 480], features=feats))
         for j in fjobs:
@@ -453,6 +472,7 @@ def tie(tier, seed, replay):
                                                   pure_programs=sum(1 for r in results if c09_pack.is_pure(r["case"]["prog"])),
                                                   with_aggregates=sum(1 for r in results if r["case"]["prog"].get("shape") == "stratified"),
                                                   write_only_family=wo_stats, attrs_family=attr_stats,
+                                                  opt_family=c09_dead.stats(opt_cases, opt_jobs, {k_: v for k_, v in okc.items() if k_.startswith("d_")}),
                                                   big_family=dict(c09_big.stats(big_jobs), declaration_lists_evaluated_in_the_model=nbm)),
                 mismatches=mism,
                 trusted_base=["family attrs: gen/c09_attrs.py renders the packagings and abstracts each to the token shape of Pack/PackAttrModel.v (attributes, signature, one token per item, includes and sources); the closure semantics of the providers (C10 / C11 / C12's subject) enters through the explicit-closure program given to the specification oracle",
